@@ -60,6 +60,14 @@ def _check_paths(ex, res, outs, per_path):
             return False
         if per_path(o, isok, payload) is False:
             return False
+        # opt-in (ex.classify_reads; the blob-file parsers init relies on to tell a torn blob from an I/O failure): read
+        # errors tagged by the obligation's read hook must pass into_bincode_if_unexpected_eof on their way out
+        errv = payload.fields.get(("Err", 0)) if isinstance(payload, Obj) else None
+        if getattr(ex, "classify_reads", False) and errv is not None and S.unclassified_read_error(ex, o, errv) and ex.feasible(o, z3.Not(isok)):
+            res.status = "violated"
+            res.detail = ("a failed file read is returned without into_bincode_if_unexpected_eof: a file cut short is reported "
+                          "as an I/O error instead of a corrupted / torn file")
+            return False
     return True
 
 
